@@ -97,7 +97,7 @@ func runC04(c *core.Ctx, o Options) {
 				return
 			}
 			if cc.IsInvoke() && an.TypeIs(cc.Value.Type(), "net", "Conn") && strings.HasPrefix(cc.Method.Name(), "Read") {
-				c.Ob("F1", fn.Name(), "direct read of the socket", in.Pos()).Fail("net.Conn.%s bypasses the connection's buffered reader: bytes would be taken out of the framed stream", cc.Method.Name())
+				c.Ob("F1", an.NameOf(fn), "direct read of the socket", in.Pos()).Fail("net.Conn.%s bypasses the connection's buffered reader: bytes would be taken out of the framed stream", cc.Method.Name())
 			}
 			cal := an.StaticCallee(cc)
 			if cal == nil || cal.Pkg == nil || cal.Pkg.Pkg.Path() != "bufio" {
@@ -105,13 +105,13 @@ func runC04(c *core.Ctx, o Options) {
 			}
 			call, _ := in.(*ssa.Call)
 			switch {
-			case cal.Name() == "NewReader" || cal.Name() == "NewReaderSize":
+			case an.NameOf(cal) == "NewReader" || an.NameOf(cal) == "NewReaderSize":
 				nNew++
 				newReader = call
-			case cal.Signature.Recv() != nil && an.TypeIs(cal.Signature.Recv().Type(), "bufio", "Reader") && (strings.HasPrefix(cal.Name(), "Read") || cal.Name() == "Peek" || cal.Name() == "Discard" || cal.Name() == "WriteTo"):
+			case cal.Signature.Recv() != nil && an.TypeIs(cal.Signature.Recv().Type(), "bufio", "Reader") && (strings.HasPrefix(an.NameOf(cal), "Read") || an.NameOf(cal) == "Peek" || an.NameOf(cal) == "Discard" || an.NameOf(cal) == "WriteTo"):
 				nRead++
 				read = call
-				c.Check(cal.Name() == "ReadBytes", "F1", fn.Name(), "stream is consumed with ReadBytes", in.Pos(), "bufio.Reader.ReadBytes", "the stream is consumed with bufio.Reader."+cal.Name()+": unlike ReadBytes it can fail on, truncate or alias a long field")
+				c.Check(an.NameOf(cal) == "ReadBytes", "F1", an.NameOf(fn), "stream is consumed with ReadBytes", in.Pos(), "bufio.Reader.ReadBytes", "the stream is consumed with bufio.Reader."+an.NameOf(cal)+": unlike ReadBytes it can fail on, truncate or alias a long field")
 			}
 		})
 	}
@@ -242,22 +242,22 @@ func runC04(c *core.Ctx, o Options) {
 				switch x := in.(type) {
 				case *ssa.Send:
 					if g, _ := an.LoadedField(x.Chan); g == f && f != nil {
-						senders = append(senders, fn.Name())
+						senders = append(senders, an.NameOf(fn))
 					}
 				case *ssa.Select:
 					for _, st := range x.States {
 						if g, _ := an.LoadedField(st.Chan); g == f && f != nil {
 							if st.Dir == 1 {
-								senders = append(senders, fn.Name())
+								senders = append(senders, an.NameOf(fn))
 							} else {
-								receivers = append(receivers, fn.Name())
+								receivers = append(receivers, an.NameOf(fn))
 							}
 						}
 					}
 				case *ssa.UnOp:
 					if x.Op == token.ARROW {
 						if g, _ := an.LoadedField(x.X); g == f && f != nil {
-							receivers = append(receivers, fn.Name())
+							receivers = append(receivers, an.NameOf(fn))
 						}
 					}
 				}
@@ -353,7 +353,7 @@ func runC04(c *core.Ctx, o Options) {
 							if call.Call.IsInvoke() {
 								name = call.Call.Method.Name()
 							} else if cal := an.StaticCallee(&call.Call); cal != nil {
-								name = cal.Name()
+								name = an.NameOf(cal)
 							}
 							if name == wantCallee {
 								arg := call.Call.Args[len(call.Call.Args)-1]
@@ -367,7 +367,7 @@ func runC04(c *core.Ctx, o Options) {
 					if wantCallee == "Write" {
 						rule = "F4"
 					}
-					ob := c.Ob(rule, cl.Name(), "each message received from "+src[strings.LastIndex(src, ".")+1:]+" is passed whole to "+wantCallee, sel.Pos())
+					ob := c.Ob(rule, an.NameOf(cl), "each message received from "+src[strings.LastIndex(src, ".")+1:]+" is passed whole to "+wantCallee, sel.Pos())
 					if sink == nil || val == nil {
 						ob.Fail("no call %s(<the received message>) in this goroutine", wantCallee)
 						continue
@@ -456,7 +456,7 @@ func runC04(c *core.Ctx, o Options) {
 	for _, sf := range []string{"Acceptor.serve", "Initiator.Serve"} {
 		if fn := c.Func("", sf); fn != nil {
 			for _, cl := range fn.AnonFuncs {
-				c.Check(!hasGo(cl), "F5", cl.Name()+"@"+sf, "connection goroutine spawns nothing", cl.Pos(), "none", "a goroutine of the connection spawns further goroutines: hand-offs would no longer be ordered")
+				c.Check(!hasGo(cl), "F5", an.NameOf(cl)+"@"+sf, "connection goroutine spawns nothing", cl.Pos(), "none", "a goroutine of the connection spawns further goroutines: hand-offs would no longer be ordered")
 			}
 		}
 	}
@@ -598,9 +598,9 @@ func goroutineOwners(fn *ssa.Function, fns []*ssa.Function, depth int) [][2]stri
 		for root.Parent() != nil {
 			root = root.Parent()
 		}
-		return [][2]string{{root.Name(), fn.Name()}}
+		return [][2]string{{an.NameOf(root), an.NameOf(fn)}}
 	}
-	self := [][2]string{{fn.Name(), fn.Name()}}
+	self := [][2]string{{an.NameOf(fn), an.NameOf(fn)}}
 	if depth > 4 || fn.Object() == nil || fn.Object().Exported() || fn.Signature.Recv() != nil {
 		return self
 	}
@@ -624,7 +624,7 @@ func goroutineOwners(fn *ssa.Function, fns []*ssa.Function, depth int) [][2]stri
 				for root.Parent() != nil {
 					root = root.Parent()
 				}
-				os = [][2]string{{root.Name(), fn.Name()}}
+				os = [][2]string{{an.NameOf(root), an.NameOf(fn)}}
 			} else {
 				os = goroutineOwners(caller, fns, depth+1)
 			}
@@ -652,7 +652,7 @@ func serveBodies(fn *ssa.Function, fns []*ssa.Function) []*ssa.Function {
 		os := goroutineOwners(h, fns, 0)
 		mine := len(os) > 0
 		for _, o := range os {
-			if o[0] != fn.Name() || o[1] == h.Name() && o[0] == h.Name() {
+			if o[0] != an.NameOf(fn) || o[1] == an.NameOf(h) && o[0] == an.NameOf(h) {
 				mine = false
 			}
 		}
